@@ -2,6 +2,7 @@ import PercevalModel.Proto
 import PercevalModel.Model.C11
 import PercevalModel.Model.C11Lists
 import PercevalModel.Model.C11Heur
+import PercevalModel.Model.C11Regroup
 
 open Lean PM PM.Proto PM.C11
 
@@ -169,22 +170,47 @@ def itsOfList : List (ℕ × Cmp GQ) → Its GQ
   | [] => .nil
   | (o, c) :: rest => .cons o c (itsOfList rest)
 
-def groupJson (N : ℕ) (g : C11.Group GQ) : Json :=
+def groupJson (N : ℕ) (withFull : Bool) (g : C11.Group GQ) : Json :=
   match g with
   | .non r0 id w => Json.mkObj [("r0", toJson r0), ("w", toJson w), ("non", toJson id)]
   | .blockOf r0 w comps =>
     let full := (Cmp.circ N (itsOfList comps)).UV GQ.I
     let M : Matrix (Fin N) (Fin N) GQ := fun i j => (full.toArray.getD i.val (Vector.replicate _ 0)).toArray.getD j.val 0
     let B : MatV GQ w w := MatV.ofMatrix (block r0 w M)
-    Json.mkObj [("r0", toJson r0), ("w", toJson w), ("U", matJson B)]
+    -- `full`: the ordered product of the run's components on all N modes — what the block, put back on
+    -- its range, has to be (`regroup_denotation`)
+    Json.mkObj ([("r0", toJson r0), ("w", toJson w), ("U", matJson B), ("n", toJson comps.length)] ++
+      (if withFull then [("full", matJson full)] else []))
+
+def entryJson (e : ℕ × Entry GQ) : Json :=
+  match e.2 with
+  | .uni c => Json.mkObj [("r0", toJson e.1), ("w", toJson c.size)]
+  | .non id w => Json.mkObj [("r0", toJson e.1), ("w", toJson w), ("non", toJson id)]
+
+def itemsList : Its GQ → List (ℕ × Cmp GQ)
+  | .nil => []
+  | .cons o c rest => (o, c) :: itemsList rest
 
 def doRegroup (j : Json) : Except String Json := do
   let fixed ← boolOf j "fixed"
   let c ← cmpOf (← j.getObjVal? "tree")
+  let withFull : Bool := match j.getObjVal? "full" with
+    | .ok (Json.bool b) => b
+    | _ => false
+  let hasTd : Bool := match j.getObjVal? "hasTd" with
+    | .ok (Json.bool b) => b
+    | _ => false
   let N := c.size
-  let l : List (ℕ × Cmp GQ) := flattenExp fixed none (itsOf c)
-  let gs := regroup GQ.I N (l.map entryOf) []
-  return Json.mkObj [("groups", Json.arr (gs.map (groupJson N)).toArray)]
+  let flat : List (ℕ × Entry GQ) := (flattenExp fixed none (itsOf c)).map entryOf
+  let top : List (ℕ × Entry GQ) := (itemsList (itsOf c)).map entryOf
+  let unitary : Bool := (unitaryCircuit top).isSome
+  match nonUnitaryCircuit GQ.I N hasTd top flat with
+  | .inl comps =>
+    return Json.mkObj [("td", Json.bool true), ("components", Json.arr (comps.map entryJson).toArray),
+      ("unitary", Json.bool unitary)]
+  | .inr gs =>
+    return Json.mkObj [("groups", Json.arr (gs.map (groupJson N withFull)).toArray),
+      ("unitary", Json.bool unitary)]
 
 def doPerm (j : Json) : Except String Json := do
   let fn ← strOf j "fn"
